@@ -1443,11 +1443,124 @@ add_rep(const char *tag, int variant, int depth, int plen, const int *pfx)
 		c->pfx[i] = pfx[i];
 }
 
+// =============================================================================
+// REQ side: a request abandoned while it is still queued (never on the wire)
+// =============================================================================
+// No replier is connected when context 0 submits request A; A is abandoned in one of three ways
+// (the send aio is cancelled, the send times out, a second request supersedes it).  Then a raw
+// replier connects, the context's current request B goes out, and the replier first answers with
+// an identifier next to B's (request identifiers are handed out in sequence, so B-1 / B-2 are the
+// ones A had) and only then with B's own.  Only the second reply may be delivered.
+static void
+run_reqabandon(void *arg)
+{
+	(void) arg;
+	vh_init(0);
+	nng_socket s;
+	VH_OK(nng_req0_open(&s));
+	VH_OK(nng_socket_set_ms(s, NNG_OPT_REQ_RESENDTIME, 60000));
+	int variant = vs_choose(VK_ENV, 2);
+	parts_open(s, variant);
+	seq[0]  = 0;
+	int how = vs_choose(VK_ENV, 3); // cancel / timeout / supersede
+	int off = vs_choose(VK_ENV, 4); // forged id: B-1, B-2, B-3, B+1
+	part *p = &PT[0];
+	static const char *HN[] = { "cancel", "timeout", "supersede" };
+	// request A, with nobody to send it to
+	nng_aio_set_msg(p->snd.aio, mkmsg((const uint8_t *) "A", 1));
+	nng_aio_set_timeout(p->snd.aio, how == 1 ? 5 : NNG_DURATION_INFINITE);
+	p->snd.sub++;
+	part_send(p, p->snd.aio);
+	vs_settle();
+	if (how == 0)
+		nng_aio_cancel(p->snd.aio);
+	else if (how == 1)
+		vs_sleep(10);
+	vs_settle();
+	if (how != 2 && p->snd.ncb != 1)
+		vs_fail("harness:setup", "the queued send was not abandoned (%s)", HN[how]);
+	// the replier appears; request B (for "supersede" it replaces A on the same context,
+	// through a second aio)
+	nng_listener l;
+	int          fd = vp_connect_raw(s, SP_REP, &l);
+	if (fd < 0)
+		vs_fail("harness:setup", "raw replier");
+	nng_aio *sb;
+	VH_OK(nng_aio_alloc(&sb, NULL, NULL));
+	nng_aio_set_msg(sb, mkmsg((const uint8_t *) "B", 1));
+	part_send(p, sb);
+	vs_settle();
+	nng_aio_wait(sb);
+	if (nng_aio_result(sb) != 0)
+		vs_fail("C04:req:send", "[%s] request B: %s", HN[how], nng_strerror(nng_aio_result(sb)));
+	nng_aio_free(sb);
+	p->rcv.sub++;
+	part_recv(p, p->rcv.aio);
+	vs_settle();
+	vp_rd         *rd = calloc(1, sizeof(*rd));
+	const uint8_t *pl;
+	size_t         len;
+	uint32_t       idB = 0;
+	int            nB = 0;
+	while (vp_next_frame(fd, rd, &pl, &len) == 1) {
+		if (len == 5 && pl[4] == 'B') {
+			idB = vp_get32(pl);
+			nB++;
+		} else if (len == 5 && pl[4] == 'A') {
+			if (how != 2) // (a superseded A may or may not have left; an abandoned one not)
+				vs_fail("C04:req:abandoned-sent",
+				    "[%s] request A was %sed while queued and still reached the replier",
+				    HN[how], HN[how]);
+		}
+	}
+	if (nB != 1)
+		vs_fail("C04:req:send", "[%s] request B seen %d times on the wire", HN[how], nB);
+	static const int OFF[] = { -1, -2, -3, 1 };
+	uint8_t  h[4];
+	uint32_t forged = (idB + (uint32_t) OFF[off]) | 0x80000000u;
+	vp_put32(h, forged);
+	vp_send(fd, h, 4, "STALE", 5);
+	vs_settle();
+	if (p->rcv.ncb != 0) {
+		char got[16] = "";
+		if (p->rcv.msg)
+			snprintf(got, sizeof(got), "%.*s", (int) nng_msg_len(p->rcv.msg),
+			    (char *) nng_msg_body(p->rcv.msg));
+		vs_fail("C04:req:foreign-reply",
+		    "[request A %s while queued; request B has id %08x] a reply with id %08x "
+		    "completed the receive (result %d, body '%s')",
+		    HN[how], idB, forged, p->rcv.res, got);
+	}
+	vp_put32(h, idB);
+	vp_send(fd, h, 4, "GOOD", 4);
+	vs_settle();
+	if (p->rcv.ncb != 1 || p->rcv.res != 0 || p->rcv.msg == NULL ||
+	    nng_msg_len(p->rcv.msg) != 4 || memcmp(nng_msg_body(p->rcv.msg), "GOOD", 4) != 0)
+		vs_fail("C04:req:lost-reply",
+		    "[request A %s while queued] the reply to request B was not delivered (callbacks "
+		    "%d, result %d)",
+		    HN[how], p->rcv.ncb, p->rcv.res);
+	vs_outcome("%s off=%d", HN[how], OFF[off]);
+	free(rd);
+	close(fd);
+	parts_close();
+	vh_fini();
+}
+
 int
 main(int argc, char **argv)
 {
 	vx_init(argc, argv, "C04");
 	int T = vx_is_thorough();
+	{
+		vx_cfg c0;
+		memset(&c0, 0, sizeof(c0));
+		c0.prop           = "C04";
+		c0.scenario       = "req-abandoned-while-queued";
+		c0.run            = run_reqabandon;
+		c0.budget[VB_ENV] = -1;
+		vx_explore(&c0, NULL);
+	}
 
 	// seeded non-initial REQ states
 	static const int QP1[] = { Q_SEND0, Q_SEND1 }; // both outstanding
